@@ -549,15 +549,6 @@ theorem atan2_order (P : Prims) (x y : Num) :
 
 theorem atan2_order' (P : Prims) (x y : Num) : ATAN2 P x y = lift (P.atan2 y.toRat x.toRat) := rfl
 
-/-- primitives that return `0` everywhere except a projecting `atan2` -/
-def probePrims : Prims :=
-  { sin := fun _ => .val 0, cos := fun _ => .val 0, tan := fun _ => .val 0, asin := fun _ => .val 0,
-    acos := fun _ => .val 0, atan := fun _ => .val 0, cosh := fun _ => .val 0,
-    asinh := fun _ => .val 0, acosh := fun _ => .val 0, exp := fun _ => .val 0,
-    ln := fun _ => .val 0, log10 := fun _ => .val 0, sqrt := fun _ => .val 0,
-    degrees := fun _ => .val 0, radians := fun _ => .val 0, atan2 := fun y _ => .val y,
-    pow := fun _ _ => .val 0, logb := fun _ _ => .val 0, pi := 3 }
-
 /-- a primitive that distinguishes its arguments shows the order matters: `ATAN2(1, 2)` hands the
     `2` over first -/
 example : ATAN2 probePrims (.int 1) (.int 2) = .val (.flt 2) := by decide +kernel
@@ -676,33 +667,6 @@ theorem SIGN_exact (n : Num) : SIGN n = .val (.flt (Spec.C16.sign n.toRat)) := b
     · simp [h2]
     · simp [h1, h2]
 
-/-- the result is a finite value or an Excel error value -/
-def Fine {α} (r : Res α) : Prop := (∃ a, r = .val a) ∨ (∃ c, r = .xlerr c)
-
-/-- What the primitives (numpy / libm) are assumed to do: they return a finite value on their
-    mathematical domain; `exp`, `cosh` and the degree conversion may overflow to an infinity, a float
-    power may raise `OverflowError`; nothing else.  Hypotheses of `domain_total`, not axioms. -/
-structure Contracts (P : Prims) : Prop where
-  sin : ∀ x, ∃ r, P.sin x = .val r
-  cos : ∀ x, ∃ r, P.cos x = .val r
-  tan : ∀ x, ∃ r, P.tan x = .val r
-  atan : ∀ x, ∃ r, P.atan x = .val r
-  asinh : ∀ x, ∃ r, P.asinh x = .val r
-  radians : ∀ x, ∃ r, P.radians x = .val r
-  atan2 : ∀ y x, ∃ r, P.atan2 y x = .val r
-  asin : ∀ x, -1 ≤ x → x ≤ 1 → ∃ r, P.asin x = .val r
-  acos : ∀ x, -1 ≤ x → x ≤ 1 → ∃ r, P.acos x = .val r
-  acosh : ∀ x, 1 ≤ x → ∃ r, P.acosh x = .val r
-  ln : ∀ x, 0 < x → ∃ r, P.ln x = .val r
-  log10 : ∀ x, 0 < x → ∃ r, P.log10 x = .val r
-  sqrt : ∀ x, 0 ≤ x → ∃ r, P.sqrt x = .val r
-  logb : ∀ x b, 0 < x → 0 < b → b ≠ 1 → ∃ r, P.logb x b = .val r
-  exp : ∀ x, (∃ r, P.exp x = .val r) ∨ P.exp x = .posInf
-  cosh : ∀ x, (∃ r, P.cosh x = .val r) ∨ P.cosh x = .posInf
-  degrees : ∀ x, (∃ r, P.degrees x = .val r) ∨ P.degrees x = .posInf ∨ P.degrees x = .negInf
-  pow : ∀ x y, (x ≠ 0 ∨ 0 ≤ y) → (0 ≤ x ∨ ((truncZ y : Int) : Rat) = y) →
-    (∃ r, P.pow x y = .val r) ∨ P.pow x y = .crash .overflow
-
 /-- the contracts are satisfiable (so `domain_total` is not vacuous) -/
 example : Contracts
     { sin := fun _ => .val 0, cos := fun _ => .val 0, tan := fun _ => .val 0, asin := fun _ => .val 0,
@@ -722,36 +686,6 @@ theorem fine_finite {o : Out Rat} (h : (∃ r, o = .val r) ∨ o = .posInf ∨ o
   · exact Or.inl ⟨_, rfl⟩
   · exact Or.inr ⟨_, rfl⟩
   · exact Or.inr ⟨_, rfl⟩
-
-/-- a call of one of the modelled functions -/
-inductive Call
-  | ABS (n : Num) | SIGN (n : Num) | SQRT (n : Num) | POWER (n p : Num) | EXP (n : Num) | LN (n : Num)
-  | LOG (n b : Num) | LOG10 (n : Num) | MOD (n d : Num) | FACT (n : Num) | FACTDOUBLE (n : Num)
-  | SIN (n : Num) | COS (n : Num) | TAN (n : Num) | ASIN (n : Num) | ACOS (n : Num) | ATAN (n : Num)
-  | ATAN2 (x y : Num) | COSH (n : Num) | ASINH (n : Num) | ACOSH (n : Num) | DEGREES (n : Num)
-  | RADIANS (n : Num) | PI
-
-/-- run a call on the model -/
-def run (P : Prims) : Call → Res Num
-  | .ABS n => ABS n | .SIGN n => SIGN n | .SQRT n => SQRT P n | .POWER n p => POWER P n p
-  | .EXP n => EXP P n | .LN n => LN P n | .LOG n b => LOG P n b | .LOG10 n => LOG10 P n
-  | .MOD n d => MOD n d | .FACT n => FACT n | .FACTDOUBLE n => FACTDOUBLE n
-  | .SIN n => SIN P n | .COS n => COS P n | .TAN n => TAN P n | .ASIN n => ASIN P n
-  | .ACOS n => ACOS P n | .ATAN n => ATAN P n | .ATAN2 x y => ATAN2 P x y | .COSH n => COSH P n
-  | .ASINH n => ASINH P n | .ACOSH n => ACOSH P n | .DEGREES n => DEGREES P n
-  | .RADIANS n => RADIANS P n | .PI => PI P
-
-/-- the function and the rational arguments of a call, as the domain table reads them -/
-def Call.sig : Call → Fn × List Rat
-  | .ABS n => (.ABS, [n.toRat]) | .SIGN n => (.SIGN, [n.toRat]) | .SQRT n => (.SQRT, [n.toRat])
-  | .POWER n p => (.POWER, [n.toRat, p.toRat]) | .EXP n => (.EXP, [n.toRat]) | .LN n => (.LN, [n.toRat])
-  | .LOG n b => (.LOG, [n.toRat, b.toRat]) | .LOG10 n => (.LOG10, [n.toRat])
-  | .MOD n d => (.MOD, [n.toRat, d.toRat]) | .FACT n => (.FACT, [n.toRat])
-  | .FACTDOUBLE n => (.FACTDOUBLE, [n.toRat]) | .SIN n => (.SIN, [n.toRat]) | .COS n => (.COS, [n.toRat])
-  | .TAN n => (.TAN, [n.toRat]) | .ASIN n => (.ASIN, [n.toRat]) | .ACOS n => (.ACOS, [n.toRat])
-  | .ATAN n => (.ATAN, [n.toRat]) | .ATAN2 x y => (.ATAN2, [x.toRat, y.toRat]) | .COSH n => (.COSH, [n.toRat])
-  | .ASINH n => (.ASINH, [n.toRat]) | .ACOSH n => (.ACOSH, [n.toRat]) | .DEGREES n => (.DEGREES, [n.toRat])
-  | .RADIANS n => (.RADIANS, [n.toRat]) | .PI => (.PI, [])
 
 /-- For every modelled elementary function and every argument the outcome is a finite value or an
     Excel error value – never NaN, an infinity or a Python exception (given the contracts). -/
@@ -921,12 +855,9 @@ theorem FLOOR_total (x s : Dec) : Fine (FLOOR x s) := by
         · exact Or.inr ⟨_, rfl⟩
         · exact Or.inl ⟨_, rfl⟩
 
-/- Full statement (goal): for decimals of up to 17 digits in the double range, `Fine (CEILING x s)`.
-   Proved below without the digit bound: CEILING returns a value, `#NUM!`, or – only when the
-   quantised result needs more than 700 digits, which the overflow guard on the quotient excludes
-   for doubles but which is not proved here – `decimal.InvalidOperation`.  Missing: the bound
-   `numDigits (s.coef * |⌈x/s⌉| * 10^pad) ≤ 700` from `¬ quotientOverflows`. -/
-theorem CEILING_outcome_partial (x s : Dec) :
+/-- CEILING returns a value, `#NUM!`, or (only if the quantised result needed more than 700 digits)
+    raises `decimal.InvalidOperation` – for any two decimals. -/
+theorem CEILING_outcome (x s : Dec) :
     Fine (CEILING x s) ∨ CEILING x s = .crash .invalidOperation := by
   unfold CEILING
   split
@@ -942,6 +873,49 @@ theorem CEILING_outcome_partial (x s : Dec) :
           rcases quantize_outcome 700 mode (mulInt s (x.toRat / s.toRat).ceil) (quantExp s) with ⟨r, hr⟩ | hr
           · rw [hr]; exact Or.inl (Or.inl ⟨_, rfl⟩)
           · rw [hr]; exact Or.inr rfl
+
+set_option exponentiation.threshold 2048 in
+/-- … and the overflow guard on the quotient keeps the result within the 700 digits for every
+    significance of up to 17 digits below 1e317 that `str(float)` can print (D1602, fixed: the
+    default 28-digit context raised from 1e27 on). -/
+theorem CEILING_total (x s : Dec) (hq : quantExp s ≤ s.exp) (hc : s.coef < 10 ^ 17) (he : s.exp ≤ 300) :
+    Fine (CEILING x s) := by
+  unfold CEILING
+  split
+  · exact Or.inl ⟨_, rfl⟩
+  · split
+    · exact Or.inr ⟨_, rfl⟩
+    · dsimp only
+      split
+      · exact Or.inr ⟨_, rfl⟩
+      · rename_i hov
+        split
+        · exact Or.inl ⟨_, rfl⟩
+        · generalize hm : (if (x.isNeg && s.isNeg) = true then Mode.down else Mode.up) = mode
+          have hkb := ceil_natAbs_bound x.toRat s.toRat (by simpa using hov)
+          generalize (x.toRat / s.toRat).ceil = k at hkb
+          have hpad : (s.exp - quantExp s).toNat ≤ 301 := by
+            rcases quantExp_ge s with h | h <;> omega
+          have hd : numDigits (s.coef * k.natAbs * 10 ^ (s.exp - quantExp s).toNat) ≤ 700 := by
+            apply numDigits_le _ _ (by norm_num)
+            have h1 : 10 ^ (s.exp - quantExp s).toNat ≤ 10 ^ 301 := Nat.pow_le_pow_right (by norm_num) hpad
+            calc s.coef * k.natAbs * 10 ^ (s.exp - quantExp s).toNat
+                < 10 ^ 17 * 10 ^ 309 * 10 ^ 301 := by
+                  apply Nat.mul_lt_mul_of_lt_of_le _ h1 (by positivity)
+                  exact Nat.mul_lt_mul'' hc hkb
+              _ ≤ 10 ^ 700 := by norm_num
+          have : quantize 700 mode (mulInt s k) (quantExp s)
+              = .val ⟨(mulInt s k).neg, s.coef * k.natAbs * 10 ^ (s.exp - quantExp s).toNat, quantExp s⟩ := by
+            unfold quantize
+            have hle : quantExp s ≤ (mulInt s k).exp := hq
+            simp only [hle, if_true]
+            have : (mulInt s k).coef = s.coef * k.natAbs := rfl
+            have e2 : (mulInt s k).exp = s.exp := rfl
+            rw [this, e2, if_neg (Nat.not_lt.mpr hd)]
+          rw [this]; exact Or.inl ⟨_, rfl⟩
+
+example : Fine (CEILING ⟨false, 1, 30⟩ ⟨false, 70, -1⟩) :=
+  CEILING_total _ _ (quantExp_le _ (by decide)) (by decide) (by decide)
 
 /-- ISEVEN / ISODD (information.py) look at the integer part only and always disagree. -/
 theorem iseven_isodd (n : Num) : ISEVEN n = !ISODD n := by
